@@ -371,7 +371,11 @@ func (s *scen) writePoolLock(ref, from string, v currency.Coin, fee currency.Coi
 func (s *scen) update(ref, from string, size int64, extend bool, add, remove int, v currency.Coin, dt int64, fee currency.Coin) chainsim.Action {
 	name := fmt.Sprintf("update_allocation_request(%s,%s", ref, from)
 	if size != 0 {
-		name += fmt.Sprintf(",size+%dMiB", size>>20)
+		if size%(1<<20) == 0 {
+			name += fmt.Sprintf(",size+%dMiB", size>>20)
+		} else {
+			name += fmt.Sprintf(",size+%dB", size)
+		}
 	}
 	if extend {
 		name += ",extend"
@@ -745,6 +749,13 @@ func (s *scen) rootAW() []chainsim.Action {
 // an extension from here moves tokens OUT of the challenge pool for every data-holding blobber.
 func (s *scen) rootAWP() []chainsim.Action {
 	return append(s.rootAW(), s.updateBlobber("b0", ZCN/4, 0), s.updateBlobber("b1", ZCN/4, 0))
+}
+
+// rootAO: base + allocation O of c0 on b0,b1,b2 whose size (2 GiB + 1) is NOT a multiple of the
+// data shards: the per-blobber size is ceil(size/2); extending O by another non-multiple makes the
+// per-blobber sizes drift from ceil(total/2).
+func (s *scen) rootAO() []chainsim.Action {
+	return append(s.rootBase(), s.newAllocRootSized("O", "c0", []int{0, 1, 2}, allocSize+1, 5*ZCN))
 }
 
 // tinyCost is the price of allocation T: 3 blobbers x one 64 KiB chunk at 1 ZCN/GiB for one time
